@@ -356,6 +356,21 @@ func run(c *fw.Ctx) error {
 		if wres.Violated != "" {
 			return fmt.Errorf("model-level property violated on the witness: %s", wres.Violated)
 		}
+		// directed family: function literals created in a loop at the global scope
+		fres, err := c.TLC(fw.TLCOpts{Dir: "spec/core", Module: "Session", Cfg: "fam.cfg", Workers: 1, Timeout: 3 * time.Minute,
+			Files: map[string][]byte{"fam.cfg": []byte("SPECIFICATION SpecSessFam\nCONSTANTS Profile = \"session\" Pinned = TRUE FamN = 1 FamFaults = {}\nINVARIANTS StatusOK CutIndependence SameEnd EmitSess\n")},
+			OnBeh: func(r json.RawMessage) {
+				var b beh
+				if json.Unmarshal(r, &b) == nil {
+					behs = append(behs, b)
+				}
+			}})
+		if err != nil {
+			return err
+		}
+		if fres.Violated != "" {
+			return fmt.Errorf("model-level property violated on the directed family: %s", fres.Violated)
+		}
 		cfg := "SPECIFICATION SpecSess\nCONSTANTS Profile = \"session\" Pinned = FALSE FamN = 1 FamFaults = {}\nINVARIANTS StatusOK CutIndependence SameEnd EmitSess\n"
 		var mu sync.Mutex
 		var wg sync.WaitGroup
